@@ -166,9 +166,15 @@ pub mod non_blocking {
                         .danger_accept_invalid_certs(true);
                 }
                 for data in &self.0.ca_certs {
-                    let cert =
-                        reqwest::Certificate::from_pem(data).or_else(|_| reqwest::Certificate::from_der(data))?;
-                    builder = builder.add_root_certificate(cert);
+                    // Certificate::from_pem does not validate its input with the rustls backend (it never fails),
+                    // so probe for PEM sections first and treat anything else as DER
+                    let pem_certs = reqwest::Certificate::from_pem_bundle(data).unwrap_or_default();
+                    if pem_certs.is_empty() {
+                        builder = builder.add_root_certificate(reqwest::Certificate::from_der(data)?);
+                    }
+                    for cert in pem_certs {
+                        builder = builder.add_root_certificate(cert);
+                    }
                 }
             }
 
